@@ -29,6 +29,8 @@ def stray_for(cfg, req, i, size=0):
     """Well-formed message of the session's version that does not match the outstanding request
     (size > 0: carrying an OCTET STRING of that many octets - larger than the client's receive buffer for 4200;
     size == -1: a well-formed message of the *other* community-based version with the right community and request-id)."""
+    if size == -2:
+        return b""  # an empty datagram
     if size == -1:
         pdu = rb.build_pdu(rb.PDU_RESPONSE, req.request_id, 0, 0, [(SYS, rb.enc_int(1000 + i))])
         return rb.build_community_msg(1 - req.version, req.community, pdu)
@@ -370,9 +372,9 @@ def work_sync(chunk):
                     break
             if confirmed:
                 k = len(case["strays"])
-                spacing = "burst" if k and case["strays"][0] != "flood" and case["strays"][0] < 0.1 * T_SYNC else ("flood" if k and case["strays"][0] == "flood" else "spaced")
+                spacing = ("burst" if k < 50 else "many") if k and case["strays"][0] != "flood" and case["strays"][0] < 0.1 * T_SYNC else ("flood" if k and case["strays"][0] == "flood" else "spaced")
                 res.violation(
-                    "sync/%s/%s/strays=%s%s/reply=%s%s" % (cfg.version, v[0], ("%d-%s" % (k, spacing)) if k else "0", ("-oversize" if size > 0 else "-other-version") if size else "", _rclass(case["reply_at"], T), "/T=%.1f" % T if T != T_SYNC else ""),
+                    "sync/%s/%s/strays=%s%s/reply=%s%s" % (cfg.version, v[0], ("%d-%s" % (k, spacing)) if k else "0", ("-oversize" if size > 0 else ("-other-version" if size == -1 else "-empty")) if size else "", _rclass(case["reply_at"], T), "/T=%.1f" % T if T != T_SYNC else ""),
                     "strays at %s s, reply at %s s: %s (confirmed on 3 re-runs)" % ([x if isinstance(x, str) else round(x, 3) for x in case["strays"]], case["reply_at"], v[1]),
                     case,
                 )
@@ -574,6 +576,14 @@ def run(tier):
     for cfg in cfgs[:2]:
         for strays, r in (([0.6 * T_SYNC, 1.2 * T_SYNC, 1.8 * T_SYNC, 2.4 * T_SYNC], None), (["flood", 0.5 * T_SYNC, 1.3 * T_SYNC], None)):
             scases.append({"driver": "sync", "cfg": cfg.describe(), "strays": strays, "reply_at": r, "size": -1})
+    # empty datagrams (documented: SnmpDecodeError; judged by the time bound only)
+    for cfg in cfgs[:2]:
+        for strays, r in (([0.6 * T_SYNC, 1.2 * T_SYNC, 1.8 * T_SYNC, 2.4 * T_SYNC, 3.0 * T_SYNC], None), (["flood", 0.5 * T_SYNC, 1.3 * T_SYNC], None)):
+            scases.append({"driver": "sync", "cfg": cfg.describe(), "strays": strays, "reply_at": r, "size": -2})
+    # many strays before the reply (a cap on skipped datagrams must not end the wait); a flood that stops before the deadline
+    for cfg in cfgs[:3]:
+        scases.append({"driver": "sync", "cfg": cfg.describe(), "strays": [0.01 * T_SYNC + 0.0005 * i for i in range(150)], "reply_at": 0.6 * T_SYNC})
+        scases.append({"driver": "sync", "cfg": cfg.describe(), "strays": ["flood", 0.0, 0.7 * T_SYNC], "reply_at": None})
     # time-outs above 2^32 ns (the nanosecond count no longer fits 32 bits)
     # (a timer never fires early, so the silent agent is the sharp case; long waits overshoot by a few per cent on this host)
     for T_long in (4.3, 8.6) if thorough else (4.3,):
